@@ -88,6 +88,8 @@ impl<Octets> UncertainName<Octets> {
         if slice.len() > Name::MAX_LEN {
             return Err(UncertainDnameErrorEnum::LongName.into());
         }
+        // A relative name has to leave room for the root label.
+        let long_relative = slice.len() > Name::MAX_LEN - 1;
         loop {
             let (label, tail) = Label::split_from(slice)?;
             if label.is_root() {
@@ -98,6 +100,9 @@ impl<Octets> UncertainName<Octets> {
                 }
             }
             if tail.is_empty() {
+                if long_relative {
+                    return Err(UncertainDnameErrorEnum::LongName.into());
+                }
                 return Ok(false);
             }
             slice = tail;
